@@ -120,6 +120,8 @@ def do_import(pid, mk):
         'validated': {k: v[k] for k in ('at', 'repo_head', 'demo_cmd', 'applies', 'builds', 'suite_with_change', 'suite_attempts', 'demo_without_change', 'demo_with_change_fails')},
         'what_i_ran': 'seedtool.py validate: fresh scratch worktree of /repo HEAD; demo on unchanged code (pass); git apply patch; go build+vet; full existing suite (pass); demo x3 with the change (fail)',
     })
+    table = json.load(open('/verif/seeds_table.json'))
+    meta.update(table.get(f'{pid}-{mk}', {}))
     meta.setdefault('needs_to_manifest', '(see AUTHOR_README.md)')
     json.dump(meta, open(meta_p, 'w'), indent=1)
     print('imported', dst)
